@@ -5,6 +5,7 @@ import Vorbis.Driver.C04
 import Vorbis.Driver.C02
 import Vorbis.Driver.C15
 import Vorbis.Driver.C11
+import Vorbis.Driver.C07
 /-- `vdriver <stream>`: the executable model, one line in / canonical lines out (DESIGN §3.2). -/
 def main (args : List String) : IO UInt32 := do
   match args with
@@ -15,4 +16,5 @@ def main (args : List String) : IO UInt32 := do
   | ["c02"] => Vorbis.Driver.C02.main; return 0
   | ["c15"] => Vorbis.Driver.C15.main; return 0
   | ["c11"] => Vorbis.Driver.C11.main; return 0
+  | ["c07"] => Vorbis.Driver.C07.main; return 0
   | _ => IO.eprintln "usage: vdriver <stream>"; return 2
